@@ -104,8 +104,8 @@ type c06Verify struct {
 	// or the base64 bytes, per configured log; APILogs = GetLogs().
 	API     map[string]string `json:"api"`
 	APILogs []string          `json:"api_logs"`
-	Probes map[string]string `json:"probes"` // "<logID> fork"/"<logID> growth" -> class
-	Err    string            `json:"err"`
+	Probes  map[string]string `json:"probes"` // "<logID> fork"/"<logID> growth" -> class
+	Err     string            `json:"err"`
 }
 
 // c06VerifyWorker: verifmc worker c06verify <db> : a fresh process reopens the
